@@ -144,8 +144,27 @@ def driver():
     return _W["drv"]
 
 
-def lean_run(before, name, entry="classify.design_file.tokenize", args="T"):
-    d = driver()
+FRAGMENTS = ("value", "noLen")  # checkers whose masked-table theorems (C04) are transferred to runs
+
+
+def masked_driver(chk):
+    """a second driver whose table has the functions failing checker `chk` made opaque (`MASK`): the table of the
+    `progTable_masked_*` theorems.  Also returns the indices of the masked functions."""
+    import leanio
+
+    key = "drv_" + chk
+    if _W.get(key) is None:
+        d = leanio.Driver("prog")
+        names = d.ask("FAILING\t" + chk)
+        d.ask("MASK\t" + names)
+        info = json.load(open(os.path.join(common.CACHE, "prog.json")))
+        idx = {f["key"]: f["idx"] for f in info["functions"]}
+        _W[key] = (d, {idx[n] for n in names.split(";") if n in idx})
+    return _W[key]
+
+
+def lean_run(before, name, entry="classify.design_file.tokenize", args="T", d=None):
+    d = d or driver()
     line = d.ask("RUN\t%s\t%s\t%s\t%s" % (entry, args, enc_cp(name) if name else "-", " ".join(enc_tok(t) for t in before)))
     parts = line.split("\t")
     if len(parts) != 5:
@@ -252,11 +271,22 @@ def one(text, name, res, label):
         res["value_changes"].append({"input": label, "changes": vc[:5], "outcome": cap["outcome"][0]})
     if lean["ins"] or lean["del"]:
         res["len_ops"] += 1
+    # link theorem (Prog.call_link): a run whose executed functions avoid the masked ones must be reproduced by the
+    # MASKED table without `Unmodelled`; then the masked-table theorems (length, values) hold for this very run
+    for chk in FRAGMENTS:
+        md, bad = masked_driver(chk)
+        if bad & set(lean["cov"]):
+            continue
+        lm = lean_run(cap["before"], name, d=md)
+        if lm["head"] == lean["head"] and lm["after"] == lean["after"] and not lm["head"].startswith("err Unmodelled"):
+            res["inside"][chk] += 1
+        else:
+            res["breaks"].append({"input": label, "diff": "masked table (%s) differs from the full table although no masked function was executed: %s vs %s" % (chk, lm["head"], lean["head"]), "real_site": None, "text": None})
 
 
 def job(args):
     path, kinds, ncorrupt = args
-    res = {"runs": 0, "tokens": 0, "skipped": 0, "unmodelled": 0, "len_ops": 0, "outcomes": collections.Counter(), "cov": collections.Counter(), "breaks": [], "value_changes": []}
+    res = {"runs": 0, "tokens": 0, "skipped": 0, "unmodelled": 0, "len_ops": 0, "outcomes": collections.Counter(), "cov": collections.Counter(), "breaks": [], "value_changes": [], "inside": collections.Counter()}
     try:
         text = gen_inputs.read_text(path)
     except OSError:
@@ -295,13 +325,14 @@ def sweep(tier, files=None):
     """run the correspondence; returns the aggregate (used by run() and by the hooks of C04 / C05 / C19)"""
     files = files if files is not None else gen_inputs.corpus_files()
     jobs = plan(tier, files)
-    agg = {"runs": 0, "tokens": 0, "skipped": 0, "unmodelled": 0, "len_ops": 0, "outcomes": collections.Counter(), "cov": collections.Counter(), "breaks": [], "value_changes": []}
+    agg = {"runs": 0, "tokens": 0, "skipped": 0, "unmodelled": 0, "len_ops": 0, "outcomes": collections.Counter(), "cov": collections.Counter(), "breaks": [], "value_changes": [], "inside": collections.Counter()}
     with multiprocessing.Pool(WORKERS, initializer=_init) as pool:
         for r in pool.imap_unordered(job, jobs, chunksize=8):
             for k in ("runs", "tokens", "skipped", "unmodelled", "len_ops"):
                 agg[k] += r[k]
             agg["outcomes"].update(r["outcomes"])
             agg["cov"].update(r["cov"])
+            agg["inside"].update(r["inside"])
             agg["breaks"] += r["breaks"]
             agg["value_changes"] += r["value_changes"]
     return agg
@@ -316,6 +347,7 @@ def cached_sweep(tier, files=None):
         agg = json.load(open(key))
         agg["cov"] = collections.Counter({int(k): v for k, v in agg["cov"].items()})
         agg["outcomes"] = collections.Counter(agg["outcomes"])
+        agg["inside"] = collections.Counter(agg.get("inside", {}))
         return agg
     except (OSError, ValueError):
         pass
@@ -348,6 +380,22 @@ def hook(res, tier, files=None, max_breaks=5):
     for b in agg["breaks"][:max_breaks]:
         res.proof_break("correspondence layer P (translated productions) vs real design_file.tokenize", b)
     executed = sorted(agg["cov"])
+    # which functions are inside the syntactic fragments of the theorems (asked from the driver: `failingNames C progTable`)
+    frag = {}
+    try:
+        import leanio
+
+        d = leanio.Driver("prog")
+        idx = {f["key"]: f["idx"] for f in info["functions"]}
+        exe = set(executed)
+        for chk in ("noLen", "value", "noRaise", "noIndex"):
+            names = [n for n in d.ask("FAILING\t" + chk).split(";") if n]
+            out_exec = sorted(n for n in names if idx.get(n) in exe)
+            frag[chk] = {"functions_outside": len(names), "functions_inside": len(info["functions"]) - len(names), "executed_outside": len(out_exec), "executed_inside": len(exe) - len(out_exec), "executed_outside_names": out_exec}
+        d.close()
+    except Exception as ex:  # noqa: BLE001
+        frag = {"error": repr(ex)}
+    res.coverage["layerP_fragments"] = frag
     res.coverage["layerP"] = {
         "runs": agg["runs"],
         "tokens": agg["tokens"],
@@ -359,6 +407,7 @@ def hook(res, tier, files=None, max_breaks=5):
         "lean_unmodelled_runs": agg["unmodelled"],
         "runs_with_insert_or_pop": agg["len_ops"],
         "real_value_changes": len(agg["value_changes"]),
+        "runs_inside_masked_fragment": dict(agg["inside"]),
         "wall_s": round(time.time() - t0, 1),
     }
     return agg
@@ -391,6 +440,10 @@ def run(prop, tier):
     print("PROG: %d runs, %d tokens, outcomes %s" % (agg["runs"], agg["tokens"], dict(agg["outcomes"])))
     print("PROG: %d functions, %d opaque, %d executed, %d translated but never executed" % (len(names), len(opaque), len(executed), len(never)))
     print("PROG: %d correspondence break(s), %d runs end in Unmodelled, %d runs with insert/pop, %d real runs change a token's text" % (len(agg["breaks"]), agg["unmodelled"], agg["len_ops"], len(agg["value_changes"])))
+    for chk, fr in res.coverage.get("layerP_fragments", {}).items():
+        if isinstance(fr, dict):
+            print("PROG: fragment %-8s %d of %d functions inside; of the %d executed functions %d inside" % (chk, fr["functions_inside"], len(names), len(executed), fr["executed_inside"]))
+    print("PROG: runs reproduced by the masked tables (theorems of C04 transfer by Prog.call_link): %s of %d" % (dict(agg["inside"]), agg["runs"]))
     for b in agg["breaks"][:8]:
         print("  BREAK", json.dumps({k: v for k, v in b.items() if k != "text"})[:600])
     for v in agg["value_changes"][:5]:
